@@ -654,7 +654,7 @@ class C14:
                 if ev == "open-w" and not dt.get("flags", 0) & (os.O_CREAT | os.O_TRUNC):
                     continue        # opening an existing file writable alters nothing by itself (snapshots judge content)
                 # the last path of copy events is the destination; every path of other events is a target
-                targets = paths[-1:] if ev in ("shutil.copyfile", "shutil.copymode", "shutil.copystat") else paths
+                targets = paths[-1:] if ev in ("shutil.copyfile", "shutil.copymode", "shutil.copystat", "os.link", "os.symlink") else paths
                 for t in targets:
                     if any(_under(t, r) for r in src_roots):
                         viol.append(oracles.V("write-event-on-source", event=ev, path=os.path.relpath(t, scratch), run=rep))
@@ -820,7 +820,7 @@ class C19:
         def veto(ev, paths, extra=None):
             if ev == "open-w" and not (extra or {}).get("flags", 0) & (os.O_CREAT | os.O_TRUNC):
                 return False     # opening an existing file writable neither creates nor overwrites; the snapshot judges content
-            targets = paths[-1:] if ev in ("shutil.copyfile", "shutil.copymode", "shutil.copystat") else paths
+            targets = paths[-1:] if ev in ("shutil.copyfile", "shutil.copymode", "shutil.copystat", "os.link", "os.symlink") else paths
             for t in targets:
                 if t in ("/dev/null", "/dev/tty"):
                     continue
